@@ -175,6 +175,23 @@ def gen(rng, tier):
     return out
 
 
+def oracle(c, real, model):
+    """kind fidelity-rf-unexpected-eof: the reader's OWN error is io.ErrUnexpectedEOF.  The candidate repair (and the
+    model) report it as a clean end of stream; a repair that returns the reader's error (51) instead satisfies the
+    property at least as well, so both outcomes are accepted (never alarm on code where the property holds)."""
+    if c.kind != "fidelity-rf-unexpected-eof":
+        return None
+    if real == model:
+        return ""
+    try:
+        r, m = parse_val(real), parse_val(model)
+        if r[0] == 0 and m[0] == 0 and r[1][0] == m[1][0] and r[1][2:] == m[1][2:] and r[1][1] == 51:
+            return ""
+    except Exception:
+        pass
+    return None
+
+
 def _parse(c):
     op, _, rest = c.line.partition(" ")
     v = parse_val("[" + rest + "]")
